@@ -11,23 +11,27 @@ From AMV Require Import Proofs.C06When.
 Import ListNotations.
 
 Definition keeps (s s' : sst) : Prop :=
-  ss_rets s' = ss_rets s /\
+  ss_crashed s' = ss_crashed s /\ ss_rets s' = ss_rets s /\
   (forall i, is_closed s i = true -> is_closed s' i = true) /\
   (forall p, In p (ss_wq s) -> In p (ss_wq s') \/ is_closed s' (fst p) = true) /\
   (forall i, In i (ss_qe s) -> In i (ss_qe s') \/ is_closed s' i = true) /\
   (forall x p, sctx_get (ss_sctx s) x = Some p ->
-               sctx_get (ss_sctx s') x = Some p \/ is_closed s' (fst p) = true).
+               sctx_get (ss_sctx s') x = Some p \/ is_closed s' (fst p) = true) /\
+  ss_frozen s' = ss_frozen s /\
+  (forall q, In q (ss_qb s) -> In q (ss_qb s') \/ is_closed s' (qb_id q) = true).
 
 Lemma keeps_refl : forall s, keeps s s.
 Proof. intros s. unfold keeps. repeat split; auto. Qed.
 
 Lemma keeps_trans : forall s1 s2 s3, keeps s1 s2 -> keeps s2 s3 -> keeps s1 s3.
 Proof.
-  intros s1 s2 s3 [A1 [B1 [C1 [D1 E1]]]] [A2 [B2 [C2 [D2 E2]]]].
-  split; [congruence|]. split; [auto|]. split; [|split].
+  intros s1 s2 s3 [Z1 [A1 [B1 [C1 [D1 [E1 [F1 G1]]]]]]] [Z2 [A2 [B2 [C2 [D2 [E2 [F2 G2]]]]]]].
+  split; [congruence|]. split; [congruence|]. split; [auto|]. split; [|split; [|split; [|split]]].
   - intros p Hp. destruct (C1 p Hp) as [H|H]; [apply C2; exact H | right; apply B2; exact H].
   - intros i Hi. destruct (D1 i Hi) as [H|H]; [apply D2; exact H | right; apply B2; exact H].
   - intros x p Hp. destruct (E1 x p Hp) as [H|H]; [apply E2; exact H | right; apply B2; exact H].
+  - congruence.
+  - intros q Hq. destruct (G1 q Hq) as [H|H]; [apply G2; exact H | right; apply B2; exact H].
 Qed.
 
 Lemma keeps_fold : forall (A : Type) (f : sst -> A -> sst),
@@ -47,17 +51,19 @@ Lemma keeps_set_time : forall s tb tctx cl,
   (forall i, mem i (ss_closed s) = true -> mem i cl = true) -> keeps s (set_time s tb tctx cl).
 Proof. intros s tb tctx cl H. unfold keeps, is_closed. psimpl. repeat split; auto. Qed.
 
-Lemma keeps_set_env : forall s fz dn dp, keeps s (set_env s fz dn dp).
+Lemma keeps_set_env : forall s fz dn dp, fz = ss_frozen s -> keeps s (set_env s fz dn dp).
 Proof. intros. unfold keeps, is_closed. psimpl. repeat split; auto. Qed.
 
 Lemma keeps_set_alloc : forall s n ac, keeps s (set_alloc s n ac).
 Proof. intros. unfold keeps, is_closed. psimpl. repeat split; auto. Qed.
 
 Lemma keeps_set_misc : forall s qb wq qe sctx cl cr,
+  cr = ss_crashed s ->
   (forall i, mem i (ss_closed s) = true -> mem i cl = true) ->
   (forall p, In p (ss_wq s) -> In p wq \/ mem (fst p) cl = true) ->
   (forall i, In i (ss_qe s) -> In i qe \/ mem i cl = true) ->
   (forall x p, sctx_get (ss_sctx s) x = Some p -> sctx_get sctx x = Some p \/ mem (fst p) cl = true) ->
+  (forall q, In q (ss_qb s) -> In q qb \/ mem (qb_id q) cl = true) ->
   keeps s (set_misc s qb wq qe sctx cl cr).
 Proof. intros. unfold keeps, is_closed. psimpl. repeat split; auto. Qed.
 
@@ -149,10 +155,13 @@ Proof.
   intros s live. change (process_when_query s live)
     with (fold_left (pwq_step (sclock s live)) (ss_qb s) s).
   apply keeps_fold. intros st b. unfold pwq_step.
-  destruct (ss_crashed st); [apply keeps_refl|].
+  destruct (ss_crashed st) eqn:Ec; [apply keeps_refl|].
   destruct (negb (qfn_eval (qb_fn b) (sclock s live)) && negb (ctx_done st (qb_ctx b))); [apply keeps_refl|].
-  destruct (qb_ctx b); apply keeps_set_misc; auto.
-  intros i Hi. apply close_mono. exact Hi.
+  apply keeps_set_misc; auto.
+  - intros i Hi. apply close_mono. exact Hi.
+  - intros q Hq. destruct (Nat.eq_dec (qb_id q) (qb_id b)) as [Heq|Hne].
+    + right. rewrite Heq. apply close_self.
+    + left. apply filter_In. split; [exact Hq|]. apply negb_true_iff. apply Nat.eqb_neq. exact Hne.
 Qed.
 
 Lemma process_queue_ends_keeps : forall s, keeps s (process_queue_ends s).
@@ -213,25 +222,27 @@ Proof.
   destruct (Nat.eq_dec y x) as [Heq|Hne].
   - subst y. assert (Hc : is_closed (psc_step s x) id = true).
     { unfold psc_step. rewrite Hg. unfold is_closed. psimpl. apply close_self. }
-    destruct (keeps_fold _ psc_step psc_step_keeps r (psc_step s x)) as [_ [Hm _]]. apply Hm. exact Hc.
+    destruct (keeps_fold _ psc_step psc_step_keeps r (psc_step s x)) as [_ [_ [Hm _]]]. apply Hm. exact Hc.
   - destruct Hin as [Hin|Hin]; [congruence|].
-    destruct (psc_step_keeps s y) as [_ [_ [_ [_ Hk]]]].
+    destruct (psc_step_keeps s y) as [_ [_ [_ [_ [_ [Hk _]]]]]].
     destruct (Hk x (id, t) Hg) as [H|H].
     + eapply IH; eassumption.
-    + destruct (keeps_fold _ psc_step psc_step_keeps r (psc_step s y)) as [_ [Hm _]]. apply Hm. exact H.
+    + destruct (keeps_fold _ psc_step psc_step_keeps r (psc_step s y)) as [_ [_ [Hm _]]]. apply Hm. exact H.
 Qed.
 
 Lemma dispose_keeps : forall s, keeps s (dispose s).
 Proof.
   intros s. unfold dispose.
-  eapply keeps_trans; [|apply keeps_set_env].
+  eapply keeps_trans; [|apply keeps_set_env; reflexivity].
   match goal with |- keeps s (set_misc s _ _ _ _ ?cl _) => set (cl5 := cl) end.
   assert (Hmono : forall (A : Type) (f : list nat -> A -> list nat),
             (forall cl x i, mem i cl = true -> mem i (f cl x) = true) ->
             forall l cl i, mem i cl = true -> mem i (fold_left f l cl) = true).
   { intros A f Hf. induction l as [|x r IH]; intros cl i Hi; simpl; [exact Hi|]. apply IH. apply Hf. exact Hi. }
   assert (H5 : forall i, mem i (ss_closed s) = true -> mem i cl5 = true).
-  { intros i Hi. unfold cl5. apply fold_close_mem. left.
+  { intros i Hi. unfold cl5.
+    apply Hmono; [intros cl b j Hj; apply close_mono; exact Hj|].
+    apply fold_close_mem. left.
     apply fold_close_mem. left.
     apply Hmono; [intros cl p j Hj; apply close_mono; exact Hj|].
     apply Hmono; [intros cl b j Hj; destruct (tb_idx b); [exact Hj | apply close_mono; exact Hj]|].
@@ -276,8 +287,9 @@ Proof.
     assert (K : keeps s (set_alloc (set_misc s (ss_qb s ++ [{| qb_id := ss_next s; qb_fn := f; qb_ctx := ctx |}])
                                    (ss_wq s) (ss_qe s) (ss_sctx s) (ss_closed s) (ss_crashed s))
                                    (S (ss_next s)) (ss_allctx s))).
-    { eapply keeps_trans; [|apply keeps_set_alloc]. apply keeps_set_misc; auto. }
-    destruct ctx; exact K.
+    { eapply keeps_trans; [|apply keeps_set_alloc]. apply keeps_set_misc; auto.
+      intros q Hq. left. apply in_or_app. left. exact Hq. }
+    exact K.
   - destruct (ss_disposed s || (tick <=? v_qtick v)%N); [apply keeps_refl|]. cbn [fst].
     eapply keeps_trans; [|apply keeps_set_alloc]. apply keeps_set_misc; auto.
     intros p Hp. left. apply in_or_app. left. exact Hp.
@@ -288,30 +300,35 @@ Proof.
     destruct (sctx_get (ss_sctx s) s0) as [[id t0]|] eqn:E; [apply keeps_refl|]. cbn [fst].
     eapply keeps_trans; [|apply keeps_set_alloc]. apply keeps_set_misc; auto.
     intros x p Hp. left. apply sctx_get_app. exact Hp.
-  - cbn [fst]. apply keeps_set_env.
-  - cbn [fst]. apply keeps_set_env.
+  - cbn [fst]. apply keeps_set_env. reflexivity.
+  - cbn [fst]. apply keeps_refl.
   - cbn [fst]. apply dispose_keeps.
   - apply keeps_refl.
 Qed.
 
 (* every step but the return-value bookkeeping of an API call *)
 Definition keeps' (s s' : sst) : Prop :=
+  ss_crashed s' = ss_crashed s /\
   (forall i, is_closed s i = true -> is_closed s' i = true) /\
   (forall p, In p (ss_wq s) -> In p (ss_wq s') \/ is_closed s' (fst p) = true) /\
   (forall i, In i (ss_qe s) -> In i (ss_qe s') \/ is_closed s' i = true) /\
   (forall x p, sctx_get (ss_sctx s) x = Some p ->
-               sctx_get (ss_sctx s') x = Some p \/ is_closed s' (fst p) = true).
+               sctx_get (ss_sctx s') x = Some p \/ is_closed s' (fst p) = true) /\
+  ss_frozen s' = ss_frozen s /\
+  (forall q, In q (ss_qb s) -> In q (ss_qb s') \/ is_closed s' (qb_id q) = true).
 
 Lemma keeps_keeps' : forall s s', keeps s s' -> keeps' s s'.
-Proof. intros s s' [_ H]. exact H. Qed.
+Proof. intros s s' [Z [_ H]]. split; [exact Z | exact H]. Qed.
 
 Lemma keeps'_trans : forall s1 s2 s3, keeps' s1 s2 -> keeps' s2 s3 -> keeps' s1 s3.
 Proof.
-  intros s1 s2 s3 [B1 [C1 [D1 E1]]] [B2 [C2 [D2 E2]]].
-  split; [auto|]. split; [|split].
+  intros s1 s2 s3 [Z1 [B1 [C1 [D1 [E1 [F1 G1]]]]]] [Z2 [B2 [C2 [D2 [E2 [F2 G2]]]]]].
+  split; [congruence|]. split; [auto|]. split; [|split; [|split; [|split]]].
   - intros p Hp. destruct (C1 p Hp) as [H|H]; [apply C2; exact H | right; apply B2; exact H].
   - intros i Hi. destruct (D1 i Hi) as [H|H]; [apply D2; exact H | right; apply B2; exact H].
   - intros x p Hp. destruct (E1 x p Hp) as [H|H]; [apply E2; exact H | right; apply B2; exact H].
+  - congruence.
+  - intros q Hq. destruct (G1 q Hq) as [H|H]; [apply G2; exact H | right; apply B2; exact H].
 Qed.
 
 Lemma process_subs_keeps : forall s act deact before live qt,
@@ -327,14 +344,15 @@ Qed.
 Lemma step_keeps' : forall s e, keeps' s (step s e).
 Proof.
   intros s e. unfold step. destruct (ss_crashed s); [apply keeps_keeps'; apply keeps_refl|].
-  destruct e as [k v o|act deact|act deact before live qt| |v p|].
+  destruct e as [k v o|act deact|act deact before live qt| |v p| |qt0].
   - pose proof (do_op_keeps s v o) as K. destruct (do_op s v o) as [s1 r]. cbn [fst] in K.
-    destruct K as [_ K]. exact K.
+    apply keeps_keeps' in K. exact K.
   - apply keeps_keeps'. apply process_state_ctx_keeps.
   - apply keeps_keeps'. apply process_subs_keeps.
   - apply keeps_keeps'. apply process_queue_ends_keeps.
   - apply keeps_keeps'. apply keeps_refl.
   - apply keeps_keeps'. apply keeps_refl.
+  - apply keeps_keeps'. apply process_when_queue_keeps.
 Qed.
 
 Lemma run_keeps' : forall es s, keeps' s (run s es).
@@ -350,14 +368,15 @@ Lemma step_rets : forall s e,
   | _ => ss_rets (step s e) = ss_rets s
   end.
 Proof.
-  intros s e. destruct e as [k v o|act deact|act deact before live qt| |v p|]; unfold step.
-  - intros Hc. rewrite Hc. pose proof (do_op_keeps s v o) as [K _]. destruct (do_op s v o) as [s1 r].
+  intros s e. destruct e as [k v o|act deact|act deact before live qt| |v p| |qt0]; unfold step.
+  - intros Hc. rewrite Hc. pose proof (do_op_keeps s v o) as [_ [K _]]. destruct (do_op s v o) as [s1 r].
     cbn [fst snd] in *. psimpl. rewrite K. reflexivity.
   - destruct (ss_crashed s); [reflexivity|]. apply process_state_ctx_keeps.
   - destruct (ss_crashed s); [reflexivity|]. apply process_subs_keeps.
   - destruct (ss_crashed s); [reflexivity|]. apply process_queue_ends_keeps.
   - destruct (ss_crashed s); reflexivity.
   - destruct (ss_crashed s); reflexivity.
+  - destruct (ss_crashed s); [reflexivity|]. apply process_when_queue_keeps.
 Qed.
 
 Lemma run_crashed : forall es s, ss_crashed s = true -> run s es = s.
@@ -371,7 +390,7 @@ Lemma ret_stable_all : forall post s k, fresh_k k post ->
 Proof.
   induction post as [|e r IH]; intros s k Hf; [reflexivity|]. rewrite run_cons.
   rewrite IH by (intros e' He'; apply Hf; right; exact He').
-  pose proof (step_rets s e) as H. destruct e as [k' v o| | | | |]; try (rewrite H; reflexivity).
+  pose proof (step_rets s e) as H. destruct e as [k' v o| | | | | |]; try (rewrite H; reflexivity).
   destruct (ss_crashed s) eqn:Ec.
   - unfold step. rewrite Ec. reflexivity.
   - rewrite (H eq_refl). cbn [ret_of].
@@ -380,7 +399,7 @@ Proof.
 Qed.
 
 Lemma closed_zero : forall es, is_closed (run init_sst es) 0 = true.
-Proof. intros es. destruct (run_keeps' es init_sst) as [H _]. apply H. reflexivity. Qed.
+Proof. intros es. destruct (run_keeps' es init_sst) as [_ [H _]]. apply H. reflexivity. Qed.
 
 (* ------------------------------------------------------------ the theorems *)
 
@@ -406,26 +425,31 @@ Proof.
     assert (step s e = s) by (unfold step; rewrite E; reflexivity).
     rewrite H, (run_crashed r s E) in Hnc. congruence. }
   destruct Hin as [Hin|Hin].
-  2: { destruct (run_keeps' r (step s e)) as [Hm _]. apply Hm.
-       destruct (step_keeps' s e) as [Hm' _]. apply Hm'. exact Hin. }
-  destruct (step_keeps' s e) as [_ [Hk _]]. destruct (Hk (id, t) Hin) as [Hk1|Hk1].
-  2: { destruct (run_keeps' r (step s e)) as [Hm _]. apply Hm. exact Hk1. }
-  destruct e as [k v o|act deact|act deact before live qt| |v p|]; cbn [processed_with] in Hp;
+  2: { destruct (run_keeps' r (step s e)) as [_ [Hm _]]. apply Hm.
+       destruct (step_keeps' s e) as [_ [Hm' _]]. apply Hm'. exact Hin. }
+  destruct (step_keeps' s e) as [_ [_ [Hk _]]]. destruct (Hk (id, t) Hin) as [Hk1|Hk1].
+  2: { destruct (run_keeps' r (step s e)) as [_ [Hm _]]. apply Hm. exact Hk1. }
+  destruct e as [k v o|act deact|act deact before live qt| |v p| |qt0]; cbn [processed_with] in Hp;
     try (apply (IH _ id t); [left; exact Hk1 | exact Hnc | exact Hp]).
-  destruct (t <=? qt)%N eqn:Et; cbn [orb] in Hp;
-    [|apply (IH _ id t); [left; exact Hk1 | exact Hnc | exact Hp]].
-  (* the tick is reached by this processSubscriptions *)
-  destruct (run_keeps' r (step s (EProcess act deact before live qt))) as [Hm _]. apply Hm.
-  unfold step. rewrite Hc. unfold process_subs.
-  destruct (process_when_query_keeps
-              (process_when_queue (process_when_time (process_when s act deact) before live) qt) live)
-    as [_ [Hm2 _]]. apply Hm2.
-  destruct (keeps_trans _ _ _ (process_when_keeps s act deact)
-              (process_when_time_keeps (process_when s act deact) before live)) as [_ [_ [Hk2 _]]].
-  destruct (Hk2 (id, t) Hin) as [H|H].
-  - eapply process_when_queue_closes; eassumption.
-  - destruct (process_when_queue_keeps (process_when_time (process_when s act deact) before live) qt)
-      as [_ [Hm3 _]]. apply Hm3. exact H.
+  - destruct (t <=? qt)%N eqn:Et; cbn [orb] in Hp;
+      [|apply (IH _ id t); [left; exact Hk1 | exact Hnc | exact Hp]].
+    (* the tick is reached by this processSubscriptions *)
+    destruct (run_keeps' r (step s (EProcess act deact before live qt))) as [_ [Hm _]]. apply Hm.
+    unfold step. rewrite Hc. unfold process_subs.
+    destruct (process_when_query_keeps
+                (process_when_queue (process_when_time (process_when s act deact) before live) qt) live)
+      as [_ [_ [Hm2 _]]]. apply Hm2.
+    destruct (keeps_trans _ _ _ (process_when_keeps s act deact)
+                (process_when_time_keeps (process_when s act deact) before live)) as [_ [_ [_ [Hk2 _]]]].
+    destruct (Hk2 (id, t) Hin) as [H|H].
+    + eapply process_when_queue_closes; eassumption.
+    + destruct (process_when_queue_keeps (process_when_time (process_when s act deact) before live) qt)
+        as [_ [_ [Hm3 _]]]. apply Hm3. exact H.
+  - (* the ProcessWhenQueue of a canceled transition *)
+    destruct (t <=? qt0)%N eqn:Et; cbn [orb] in Hp;
+      [|apply (IH _ id t); [left; exact Hk1 | exact Hnc | exact Hp]].
+    destruct (run_keeps' r (step s (EQueueTick qt0))) as [_ [Hm _]]. apply Hm.
+    unfold step. rewrite Hc. eapply process_when_queue_closes; eassumption.
 Qed.
 
 Lemma crashed_step : forall s e r, ss_crashed (run s (e :: r)) = false -> ss_crashed s = false.
@@ -442,12 +466,12 @@ Proof.
   induction post as [|e r IH]; intros s id Hin Hnc Hp; [contradiction|].
   pose proof (crashed_step _ _ _ Hnc) as Hc. rewrite run_cons in *.
   destruct Hin as [Hin|Hin].
-  2: { destruct (run_keeps' r (step s e)) as [Hm _]. apply Hm.
-       destruct (step_keeps' s e) as [Hm' _]. apply Hm'. exact Hin. }
+  2: { destruct (run_keeps' r (step s e)) as [_ [Hm _]]. apply Hm.
+       destruct (step_keeps' s e) as [_ [Hm' _]]. apply Hm'. exact Hin. }
   destruct Hp as [Hp|Hp].
-  - subst e. destruct (run_keeps' r (step s EQueueEnd)) as [Hm _]. apply Hm.
+  - subst e. destruct (run_keeps' r (step s EQueueEnd)) as [_ [Hm _]]. apply Hm.
     unfold step. rewrite Hc. apply process_queue_ends_closes. exact Hin.
-  - destruct (step_keeps' s e) as [_ [_ [Hk _]]]. destruct (Hk id Hin) as [Hk1|Hk1].
+  - destruct (step_keeps' s e) as [_ [_ [_ [Hk _]]]]. destruct (Hk id Hin) as [Hk1|Hk1].
     + apply IH; [left; exact Hk1 | exact Hnc | exact Hp].
     + apply IH; [right; exact Hk1 | exact Hnc | exact Hp].
 Qed.
@@ -460,15 +484,15 @@ Proof.
   induction post as [|e r IH]; intros s x id t Hin Hnc Hp; [discriminate|].
   pose proof (crashed_step _ _ _ Hnc) as Hc. rewrite run_cons in *.
   destruct Hin as [Hin|Hin].
-  2: { destruct (run_keeps' r (step s e)) as [Hm _]. apply Hm.
-       destruct (step_keeps' s e) as [Hm' _]. apply Hm'. exact Hin. }
-  destruct (step_keeps' s e) as [_ [_ [_ Hk]]]. destruct (Hk x (id, t) Hin) as [Hk1|Hk1].
-  2: { destruct (run_keeps' r (step s e)) as [Hm _]. apply Hm. exact Hk1. }
-  destruct e as [k v o|act deact|act deact before live qt| |v p|]; cbn [ctx_touched] in Hp;
+  2: { destruct (run_keeps' r (step s e)) as [_ [Hm _]]. apply Hm.
+       destruct (step_keeps' s e) as [_ [Hm' _]]. apply Hm'. exact Hin. }
+  destruct (step_keeps' s e) as [_ [_ [_ [_ [Hk _]]]]]. destruct (Hk x (id, t) Hin) as [Hk1|Hk1].
+  2: { destruct (run_keeps' r (step s e)) as [_ [Hm _]]. apply Hm. exact Hk1. }
+  destruct e as [k v o|act deact|act deact before live qt| |v p| |qt0]; cbn [ctx_touched] in Hp;
     try (apply (IH _ x id t); [left; exact Hk1 | exact Hnc | exact Hp]).
   destruct (mem x (act ++ deact)) eqn:Em; cbn [orb] in Hp;
     [|apply (IH _ x id t); [left; exact Hk1 | exact Hnc | exact Hp]].
-  destruct (run_keeps' r (step s (EStateCtx act deact))) as [Hm _]. apply Hm.
+  destruct (run_keeps' r (step s (EStateCtx act deact))) as [_ [Hm _]]. apply Hm.
   unfold step. rewrite Hc.
   change (process_state_ctx s act deact) with (fold_left psc_step (act ++ deact) s).
   eapply process_state_ctx_closes; [exact Hin | apply mem_In; exact Em].
@@ -580,3 +604,124 @@ Proof.
     unfold psc_step in Hi. destruct (sctx_get (ss_sctx s) y) as [[id t']|]; [|exact Hi].
     psimpl. apply filter_In in Hi. tauto.
 Qed.
+
+(* ------------------------------------------------------------ no crash, live clock *)
+
+Lemma run_not_crashed : forall es, ss_crashed (run init_sst es) = false.
+Proof. intros es. destruct (run_keeps' es init_sst) as [H _]. rewrite H. reflexivity. Qed.
+
+Lemma run_frozen : forall es s, ss_frozen (run s es) = ss_frozen s.
+Proof. intros es s. destruct (run_keeps' es s) as [_ [_ [_ [_ [_ [H _]]]]]]. exact H. Qed.
+
+(* ------------------------------------------------------------ WhenQuery *)
+
+Lemma pwq_fold_closes : forall cl l st q,
+  ss_crashed st = false -> qfn_eval (qb_fn q) cl = true ->
+  In q l -> is_closed (fold_left (pwq_step cl) l st) (qb_id q) = true.
+Proof.
+  intros cl. induction l as [|b r IH]; intros st q Hc Hf Hin; simpl in *; [contradiction|].
+  assert (Hk : forall st b, keeps st (pwq_step cl st b)).
+  { intros st0 b0. unfold pwq_step. destruct (ss_crashed st0) eqn:Ec; [apply keeps_refl|].
+    destruct (negb (qfn_eval (qb_fn b0) cl) && negb (ctx_done st0 (qb_ctx b0))); [apply keeps_refl|].
+    apply keeps_set_misc; auto.
+    - intros i Hi. apply close_mono. exact Hi.
+    - intros q0 Hq0. destruct (Nat.eq_dec (qb_id q0) (qb_id b0)) as [Heq|Hne].
+      + right. rewrite Heq. apply close_self.
+      + left. apply filter_In. split; [exact Hq0|]. apply negb_true_iff. apply Nat.eqb_neq. exact Hne. }
+  destruct Hin as [Hin|Hin].
+  - subst b. destruct (keeps_fold _ (pwq_step cl) Hk r (pwq_step cl st q)) as [_ [_ [Hm _]]]. apply Hm.
+    unfold pwq_step. rewrite Hc, Hf. cbn [negb andb]. unfold is_closed. psimpl. apply close_self.
+  - apply IH; [|exact Hf|exact Hin]. destruct (Hk st b) as [Z _]. congruence.
+Qed.
+
+(* ProcessWhenQuery closes every binding whose predicate holds on sm.clock *)
+Lemma process_when_query_closes : forall s live q,
+  ss_crashed s = false -> In q (ss_qb s) -> qfn_eval (qb_fn q) (sclock s live) = true ->
+  is_closed (process_when_query s live) (qb_id q) = true.
+Proof.
+  intros s live q Hc Hin Hf. change (process_when_query s live)
+    with (fold_left (pwq_step (sclock s live)) (ss_qb s) s).
+  apply pwq_fold_closes; assumption.
+Qed.
+
+Lemma sclock_live : forall s live, ss_frozen s = None -> sclock s live = live.
+Proof. intros s live H. unfold sclock. rewrite H. reflexivity. Qed.
+
+Lemma qb_track : forall post s q,
+  In q (ss_qb s) \/ is_closed s (qb_id q) = true ->
+  ss_crashed s = false -> ss_frozen s = None ->
+  query_held (qb_fn q) post = true ->
+  is_closed (run s post) (qb_id q) = true.
+Proof.
+  induction post as [|e r IH]; intros s q Hin Hc Hfz Hp; [discriminate|].
+  rewrite run_cons.
+  destruct (step_keeps' s e) as [Hc' [Hm' [_ [_ [_ [Hfz' Hk]]]]]].
+  assert (Hc2 : ss_crashed (step s e) = false) by congruence.
+  assert (Hfz2 : ss_frozen (step s e) = None) by congruence.
+  destruct Hin as [Hin|Hin].
+  2: { destruct (run_keeps' r (step s e)) as [_ [Hm _]]. apply Hm. apply Hm'. exact Hin. }
+  destruct (Hk q Hin) as [Hk1|Hk1].
+  2: { destruct (run_keeps' r (step s e)) as [_ [Hm _]]. apply Hm. exact Hk1. }
+  destruct e as [k v o|act deact|act deact before live qt| |v p| |qt0]; cbn [query_held] in Hp;
+    try (apply IH; [left; exact Hk1 | exact Hc2 | exact Hfz2 | exact Hp]).
+  destruct (qfn_eval (qb_fn q) live) eqn:Ef; cbn [orb] in Hp;
+    [|apply IH; [left; exact Hk1 | exact Hc2 | exact Hfz2 | exact Hp]].
+  destruct (run_keeps' r (step s (EProcess act deact before live qt))) as [_ [Hm _]]. apply Hm.
+  unfold step. rewrite Hc. unfold process_subs.
+  set (s3 := process_when_queue (process_when_time (process_when s act deact) before live) qt).
+  assert (K3 : keeps s s3).
+  { eapply keeps_trans; [apply process_when_keeps|].
+    eapply keeps_trans; [apply process_when_time_keeps | apply process_when_queue_keeps]. }
+  destruct K3 as [Z3 [_ [_ [_ [_ [_ [F3 Q3]]]]]]].
+  destruct (Q3 q Hin) as [H|H].
+  - apply process_when_query_closes; [congruence | exact H |].
+    rewrite sclock_live by congruence. exact Ef.
+  - destruct (process_when_query_keeps s3 live) as [_ [_ [Hm3 _]]]. apply Hm3. exact H.
+Qed.
+
+(* WhenQuery, with or without a context: closed once a later
+   processSubscriptions finds the predicate true *)
+Theorem whenquery_no_lost_lemma : forall pre k v f ctx post,
+  let es := pre ++ EOp k v (OWhenQuery f ctx) :: post in
+  fresh_k k post -> query_held f post = true ->
+  closed_of (run init_sst es) k = true.
+Proof.
+  intros pre k v f ctx post es Hf Hcond. subst es.
+  pose proof (run_not_crashed (pre ++ EOp k v (OWhenQuery f ctx) :: post)) as Hnc.
+  destruct (closed_of_after pre k v (OWhenQuery f ctx) post Hf Hnc) as [Hc1 Hcl]. rewrite Hcl. clear Hcl.
+  pose proof (closed_zero (pre ++ EOp k v (OWhenQuery f ctx) :: post)) as Hz.
+  rewrite split_run in Hz.
+  pose proof (run_frozen pre init_sst) as Hfz. cbn [ss_frozen init_sst] in Hfz.
+  set (s1 := run init_sst pre) in *.
+  assert (Hstep : step s1 (EOp k v (OWhenQuery f ctx))
+                  = add_ret (fst (do_op s1 v (OWhenQuery f ctx))) k (snd (do_op s1 v (OWhenQuery f ctx))))
+    by (apply step_op; exact Hc1).
+  unfold do_op in *. destruct (ss_disposed s1 || ctx_done s1 ctx) eqn:E; cbn [fst snd] in *; [exact Hz|].
+  set (q := {| qb_id := ss_next s1; qb_fn := f; qb_ctx := ctx |}).
+  apply (qb_track post _ q).
+  - left. rewrite Hstep. psimpl. apply in_or_app. right. left. reflexivity.
+  - rewrite Hstep. psimpl. exact Hc1.
+  - rewrite Hstep. psimpl. exact Hfz.
+  - exact Hcond.
+Qed.
+
+(* ---- the queue / context theorems without the no-crash hypothesis *)
+
+Theorem whenqueue_no_lost_lemma' : forall pre k v t post,
+  let es := pre ++ EOp k v (OWhenQueue t) :: post in
+  fresh_k k post ->
+  (t <=? v_qtick v)%N || processed_with (fun qt => (t <=? qt)%N) post = true ->
+  closed_of (run init_sst es) k = true.
+Proof. intros. apply whenqueue_no_lost_lemma; try assumption. apply run_not_crashed. Qed.
+
+Theorem whenqueueends_lemma' : forall pre k v post,
+  let es := pre ++ EOp k v OWhenQueueEnds :: post in
+  fresh_k k post -> v_running v = false \/ In EQueueEnd post ->
+  closed_of (run init_sst es) k = true.
+Proof. intros. apply whenqueueends_lemma; try assumption. apply run_not_crashed. Qed.
+
+Theorem statectx_no_lost_lemma' : forall pre k v x post,
+  let es := pre ++ EOp k v (ONewStateCtx x) :: post in
+  fresh_k k post -> known v [x] = true -> ctx_touched x post = true ->
+  closed_of (run init_sst es) k = true.
+Proof. intros. apply statectx_no_lost_lemma; try assumption. apply run_not_crashed. Qed.
